@@ -472,6 +472,14 @@ def entry_points(dtype=np.float64, seed=0):
             return f"(KNnTuckerN {N}%nat {sweeps}%nat {C.boolc(normalize)} {C.nat_list(range(N))})"
         return (nk_name, [0, 1])
 
+    def thk(normalize, sweeps=2, cls=False):   # round 8: non_negative_tucker_hals(tensor, init, sparsity_coefficients, fixed_modes), fista core update:
+        def thk_name(args):                    # order-generic skeleton of Model/EffectsR8.v (Props C15_nn_tucker_hals_any_order_frame)
+            if cls:
+                est, X = args[0], args[1]
+                args = (X, est.init, est.sparsity_coefficients, est.fixed_modes)
+            return nn_tucker_hals_kind(args, sweeps, normalize, cls)
+        return (thk_name, [0, 1] if cls else [0, 1, 2, 3])
+
     def mono_name(dec):                # monotonicity_prox(tensor, decreasing): 1-D or 2-D input, rows x columns
         def name(args):
             a = args[0]
@@ -564,7 +572,15 @@ def entry_points(dtype=np.float64, seed=0):
     simple("nn_tucker_init_zero_entries", lambda X, i: non_negative_tucker(X, [2, 2, 2], n_iter_max=2, init=i, tol=0, normalize_factors=True), lambda d: (d.X, (d.core * (d.core > 0.5), [f * (f > 0.3) + 0.01 * (f <= 0.3) for f in d.tf])), skel=nk(True))
     simple("nn_tucker_hals", lambda X: non_negative_tucker_hals(X, [2, 2, 2], n_iter_max=3, init="random", random_state=sd), lambda d: (d.X,))
     simple("nn_tucker_hals_as", lambda X: non_negative_tucker_hals(X, [2, 2, 2], n_iter_max=2, init="random", random_state=sd, algorithm="active_set"), lambda d: (d.X,))
-    simple("nn_tucker_hals_init", lambda X, i, sc, fm: non_negative_tucker_hals(X, [2, 2, 2], n_iter_max=2, init=i, sparsity_coefficients=sc, fixed_modes=fm), lambda d: (d.X, (d.core, d.tf), [0.1, 0.1, 0.1], [0]))
+    simple("nn_tucker_hals_init", lambda X, i, sc, fm: non_negative_tucker_hals(X, [2, 2, 2], n_iter_max=2, init=i, sparsity_coefficients=sc, fixed_modes=fm), lambda d: (d.X, (d.core, d.tf), [0.1, 0.1, 0.1], [0]), skel=thk(False))
+    # round 8: the order-generic skeleton on more shapes of the options: the last mode asked to be fixed (removed from the COPY of the list), tuple
+    # containers, normalisation, a by-reference-prone init without negative entries (hals_nnls must get a copy of the transposed factor)
+    simple("nn_tucker_hals_init_fixed_last", lambda X, i, sc, fm: non_negative_tucker_hals(X, [2, 2, 2], n_iter_max=2, init=i, sparsity_coefficients=sc, fixed_modes=fm, tol=0),
+           lambda d: (d.X, (d.core, d.tf), (0.1, None, 0.1), [1, 2]), skel=thk(False))
+    simple("nn_tucker_hals_init_norm_1sweep", lambda X, i, sc, fm: non_negative_tucker_hals(X, [2, 2, 2], n_iter_max=1, init=i, sparsity_coefficients=sc, fixed_modes=fm, normalize_factors=True, tol=0),
+           lambda d: (d.X, [d.core, tuple(d.tf)], None, None), skel=thk(True, 1))
+    simple("nn_tucker_hals_init_mixed_sign", lambda X, i, sc, fm: non_negative_tucker_hals(X, [2, 2, 2], n_iter_max=2, init=i, sparsity_coefficients=sc, fixed_modes=fm, tol=0),
+           lambda d: (d.X, TuckerTensor((d.core, [d.tf[0], -d.tf[1], d.tf[2]])), [None, 0.2, None], (0,)), skel=thk(False))
     # round 7: the callee active_set_nnls catches the failure of its solve (a try statement inside a callee: Model.EffectsR7.xcmd)
     simple("nn_tucker_hals_init_as_plain", lambda X, i, sc, fm: non_negative_tucker_hals(X, [2, 2, 2], n_iter_max=2, init=i, sparsity_coefficients=sc, fixed_modes=fm, algorithm="active_set", tol=0),
            lambda d: (d.X, (d.core, d.tf), [0.1, 0.1, 0.1], [0]), skel=("KXNnTuckerHalsActiveSet", [0, 1, 2, 3]))
@@ -947,7 +963,7 @@ def entry_points(dtype=np.float64, seed=0):
     simple("nn_tucker_hals_exact_rank1_active_set", lambda X, i: non_negative_tucker_hals(X, [1, 1, 1], n_iter_max=2, init=i, exact=True, algorithm="active_set"), lambda d: (d.X, ((d.rs.rand(1, 1, 1) + 0.1).astype(dtype), r1(d))))
     simple("hals_nnls_warm_exact_true_rank1", lambda a, b, V: hals_nnls(a, b, V, exact=True), lambda d: (d.UtM[:1], d.UtU[:1, :1], (d.rs.rand(1, 3) * 5 + 1).astype(dtype)), inplace=[2], skel=HN)
     simple("Tucker_NN_receiver_fit_transform_normalize_obj", lambda est, X: est.fit_transform(X), lambda d: (Tucker_NN([2, 2, 2], n_iter_max=2, init=TuckerTensor((d.core, d.tf)), normalize_factors=True, tol=0), d.X), inplace=[0], skel=nck(True))
-    simple("Tucker_NN_HALS_receiver_fit_transform", lambda est, X: est.fit_transform(X), lambda d: (Tucker_NN_HALS([2, 2, 2], n_iter_max=2, init=(d.core, d.tf), sparsity_coefficients=[0.1, None, 0.1], fixed_modes=[2]), d.X), inplace=[0], skel=EK)
+    simple("Tucker_NN_HALS_receiver_fit_transform", lambda est, X: est.fit_transform(X), lambda d: (Tucker_NN_HALS([2, 2, 2], n_iter_max=2, init=(d.core, d.tf), sparsity_coefficients=[0.1, None, 0.1], fixed_modes=[2]), d.X), inplace=[0], skel=thk(False, 2, True))
     simple("CPPower_receiver_fit", lambda est, X: est.fit(X), lambda d: (CPPower(R, n_repeat=2, n_iteration=2), d.X), inplace=[0], skel=EK)
     simple("SymmetricCP_receiver_fit", lambda est, X: est.fit(X), lambda d: (SymmetricCP(R, n_repeat=2, n_iteration=2), d.rs.rand(3, 3, 3).astype(dtype)), inplace=[0], skel=EK)
     simple("TensorTrain_receiver_fit", lambda est, X: est.fit(X), lambda d: (TensorTrain([1, 2, 2, 1]), d.X), inplace=[0], skel=EK)
@@ -1173,6 +1189,8 @@ def fuzz_spec(fseed, dtype=np.float64):
                         core_sparsity_coefficient=r.choice([None, 0.1]))
             fn = lambda X_, i, sc_, fm: non_negative_tucker_hals(X_, rk, init=i, sparsity_coefficients=sc_, fixed_modes=fm, **opts)
             args = (X, init, sc, fixed)
+            if opts["algorithm"] == "fista":      # round 8: the order-generic skeleton (active_set: a try statement in the callee, fixed order only)
+                skel = ((lambda a, nz=opts["normalize_factors"], sw=opts["n_iter_max"]: nn_tucker_hals_kind(a, sw, nz, False)), [0, 1, 2, 3])
     else:   # parafac2
         I = r.randint(2, 3); K = r.randint(3, 4)
         slices = [(rs.rand(r.randint(3, 5), K) + 0.05).astype(dtype) for _ in range(I)]
@@ -1208,6 +1226,19 @@ def fuzz_spec(fseed, dtype=np.float64):
             return est.fit_transform(data), est.decomposition_
         return dict(fn=fn_class, args=args, inplace=set(inplace), skel=skel, ep=f"tensorly:fuzz:{algo}", algo=algo + ":class")
     return dict(fn=fn, args=args, inplace=set(inplace), skel=skel, ep=f"tensorly:fuzz:{algo}", algo=algo)
+
+
+def nn_tucker_hals_kind(args, sweeps, normalize, cls=False):
+    """(X, init, sparsity_coefficients, fixed_modes) -> KNnTuckerHalsN / KNnTuckerHalsClassFit literal: which list entries the code assigns"""
+    N = args[0].ndim
+    sclen = len(args[2]) if isinstance(args[2], (list, tuple)) else 0
+    fixed = list(args[3]) if args[3] is not None else []
+    rm = fixed.index(N - 1) if N - 1 in fixed else None          # fixed_modes.remove(ndim - 1) on the copy
+    eff = [m for i, m in enumerate(fixed) if i != rm]
+    modes = [m for m in range(N) if m not in eff]
+    rmlit = "None" if rm is None else f"(Some {int(rm)}%nat)"
+    kind = "KNnTuckerHalsClassFit" if cls else "KNnTuckerHalsN"
+    return f"({kind} {N}%nat {int(sweeps)}%nat 2%nat {sclen}%nat {len(fixed)}%nat {rmlit} {C.nat_list(eff)} {C.nat_list(modes)} {C.boolc(normalize)})"
 
 
 # ============================================================================ static extraction of aliasing skeletons (corr:C15-static)
@@ -2293,6 +2324,7 @@ HAND_WRITTEN = {    # (function, in-place parameters, option-set index) -> (hand
     ("tucker_mode_dot", (), 0): ("KTuckerModeDotCopy", [F_, F_]),
     ("tucker_mode_dot", ("tucker_tensor",), 0): ("KTuckerModeDotVecInplace", [T_, F_]),
     ("non_negative_tucker", (), 0): ("(KNnTuckerN 3%nat 2%nat true [0%nat; 1%nat; 2%nat])", [F_] * 2),
+    ("non_negative_tucker_hals", (), 0): ("(KNnTuckerHalsN 3%nat 2%nat 2%nat 3%nat 1%nat None [0%nat] [1%nat; 2%nat] false)", [F_] * 4),
     ("monotonicity_prox", (), 0): ("(KMonoProx true false 3%nat 3%nat)", [F_]),
     ("unimodality_prox", (), 0): ("(KUnimodalProx false 3%nat 3%nat)", [F_]),
 }
@@ -2382,6 +2414,29 @@ FLAG_MODEL = {
                                                       "False": "KWrapperCtor: same code path"},
     "tensorly.tt_matrix.TTMatrix.__init__(inplace)": {"True": "KWrapperCtor (flag unused)", "False": "KWrapperCtor (flag unused)"},
 }
+# round 8: the property lists EXACTLY three documented in-place exceptions.  Every configuration of the table that flags an argument as
+# in-place must fall into one of them, or be a METHOD whose receiver is the object the method is documented to transform / fit (receiver
+# semantics: `self` is not an argument the caller passes to be read; C15_method_frame / C15_estimator_fit_frame show that even then only the
+# receiver OBJECT changes, never an array or list it held).  Anything else is reported as broken (fail closed).
+EXCEPTION_CLASSES = {
+    "copy=False mode products": lambda n: "mode_dot" in n,
+    "the mutable NNLS start matrix (hals_nnls V)": lambda n: n.startswith("hals_nnls"),
+    "index_update": lambda n: n.startswith("index_update"),
+}
+RECEIVER_CLASSES = {
+    "receiver of CPTensor.normalize(inplace=True) / TuckerTensor.normalize() (method mutator, not an exception)": lambda n: "normalize_method" in n,
+    "receiver of an estimator's fit / fit_transform (stores decomposition_ on self, not an exception)": lambda n: "_receiver_fit" in n,
+}
+EXC_SEEN = {}        # class -> configurations with a flagged argument that ran
+
+
+def exception_class(name):
+    for k_, f_ in list(EXCEPTION_CLASSES.items()) + list(RECEIVER_CLASSES.items()):
+        if f_(name):
+            return k_
+    return "UNCLASSIFIED"
+
+
 SURFACE = {}         # code object -> qualified name of a public callable of the audited packages (filled by public_surface)
 SURFACE_HIT = {}     # qualified name -> first configuration that executed it
 CALL_COUNTS = {}     # (configuration, dtype, data seed) -> number of internal function calls of an uninterrupted "fresh" run
@@ -2751,6 +2806,7 @@ def run(chk):
         chk.hist("changed_objects", len(r["changed"]))
         if r["spec"]["inplace"]:
             chk.hist("inplace_documented_changed", bool(r["changed"]))
+            EXC_SEEN.setdefault(exception_class(name), set()).add(name)
         if cid % 211 == 0:
             chk.sample({"config": name, "variant": variant, "dtype": dtype, "outcome": r["outcome"], "heap_objects": n_objs,
                         "changed": meta[-1][5], "paths": [o["path"] for o in r["heap"].objs][:12]})
@@ -2807,6 +2863,13 @@ def run(chk):
         chk.notes.append(f"in-place-style flags: {len(flags_found)} found, all modelled both ways and exercised with both values" if not any("in-place-style" in b["what"] for b in chk.broken) else "in-place-style flags: see broken")
         chk.notes.append(f"public surface: {len(allq) - len(missing)} of {len(allq)} public callables executed by the table" +
                          (f"; NOT executed: {', '.join(missing[:12])}" if missing else ""))
+    chk.cov["documented_in_place_exceptions"] = {"exceptions_of_the_property": {k_: sorted(EXC_SEEN.get(k_, [])) for k_ in EXCEPTION_CLASSES},
+                                                 "receiver_semantics_not_exceptions": {k_: sorted(EXC_SEEN.get(k_, [])) for k_ in RECEIVER_CLASSES}}
+    for n_ in sorted(EXC_SEEN.get("UNCLASSIFIED", [])):
+        chk.broken.append({"what": "a configuration flags an argument as in-place outside the three documented exceptions / the receiver semantics", "detail": n_})
+    for k_ in EXCEPTION_CLASSES:
+        if not EXC_SEEN.get(k_):
+            chk.broken.append({"what": "a documented in-place exception of the property is not exercised by the table", "detail": k_})
     try:
         srep, sbad = sensitivity_preconditions()
         chk.cov["sensitivity_preconditions_of_the_seeded_families"] = srep
